@@ -86,6 +86,7 @@ func c14Vars(log *[]string, jfName string) jet.VarMap {
 	vars.Set("rf", func(args ...interface{}) string { return r.note("jf", args...) })
 	vars.Set("obj", c14Methods{rec: r, Tag: "o"})
 	vars.Set("pobj", &c14Methods{rec: r, Tag: "p"})
+	vars["nilv"] = reflect.Value{}
 	vars.Set("sv", "strvar")
 	vars.Set("iv", 7)
 	return vars
@@ -140,9 +141,18 @@ func c14GenArg(t *rapid.T, kind byte, label string) c14Arg {
 }
 
 func genC14(t *rapid.T) c14Case {
-	switch rapid.IntRange(0, 9).Draw(t, "kind") {
+	switch rapid.IntRange(0, 10).Draw(t, "kind") {
 	case 0, 1, 2:
 		return genC14Builtin(t)
+	case 10:
+		// misuse that must be an error (never a panic, never silently accepted)
+		tpl := rapid.SampledFrom([]string{
+			`{{ raw: "x" | jf }}`, `{{ safeHtml: "x" | jf | f1 }}`, `{{ "x" | raw | jf }}`, `{{ "x" | unsafe | f1 }}`, `{{ raw: "x" | isset }}`,
+			`{{ f1() }}`, `{{ f2("a") }}`, `{{ "a" | f2 }}`, `{{ f3("a", "b", "c", "d") }}`, `{{ "a" | f1: "b" }}`, `{{ pobj.PJoin("a") }}`,
+			`{{ f1(nothing) }}`, `{{ nilv | f1 }}`, `{{ f2("a", nilv) }}`, `{{ fv("a", nilv) }}`, `{{ f2("a", "b") }}`, `{{ g2("a", "b") }}`, `{{ fv("a", 1, "x") }}`,
+			`{{ f2("a", _) }}`, `{{ "a" | f3(_, _, "c") }}`,
+		}).Draw(t, "misuse")
+		return c14Case{Kind: "misuse", Tpl: tpl, Expr: tpl}
 	}
 	c := c14Case{Kind: "chain", Base: c14GenArg(t, 'S', "base")}
 	n := rapid.IntRange(1, 4).Draw(t, "nstages")
@@ -325,6 +335,17 @@ func c14Run(tpl string, jf string) (jetrun.Outcome, []string) {
 func judgeC14(c c14Case) (v core.Verdict) {
 	if c.Kind == "builtin" {
 		return judgeC14Builtin(c)
+	}
+	if c.Kind == "misuse" {
+		v.Label("misuse")
+		v.NonTrivial = true
+		o, _ := c14Run(c.Tpl, "")
+		if o.Panicked {
+			v.Failf("%s: misuse must be an error, but Execute (or Parse) panicked: %s", c.Tpl, o.PanicVal)
+		} else if o.Err == nil {
+			v.Failf("%s: wrong argument count / invalid value / misplaced SafeWriter must be an error, but rendered %q", c.Tpl, o.Out)
+		}
+		return
 	}
 	want, wantLog := c.apply()
 	wantOut := "[" + string(mj.HTMLEscape([]byte(want))) + "]"
